@@ -50,11 +50,31 @@ def r02_1(ctx):
             mapped = True
     r.ob("tabs are converted to spaces", mapped, C.mloc(tc, tc), "replace('\\t', \" \")" if mapped else "a tab that survives trimming stays a tab: JSX text treats tabs as spaces")
     # trimming is by the space character only
+    idx_tc = HirIndex(tc)
     for n in walk(tc["body"]):
         if n.get("k") == "MethodCall" and n["method"] in ("trim_start_matches", "trim_end_matches", "trim_matches") and n["args"]:
             a = strip_transparent(n["args"][0])
             ok = a.get("k") == "Lit" and a.get("v") == " "
             r.ob("%s strips spaces only" % n["method"], ok, C.mloc(tc, n), expr_str(n["args"][0])[:40])
+            # ... and it works on the text in which tabs are already spaces (else a tab next to a line break survives the trimming)
+            idx = idx_tc
+            src_ok = False
+            cur = n["recv"]
+            for _ in range(8):
+                cs = strip_transparent(cur)
+                if any(x.get("k") == "MethodCall" and x["method"] in ("replace", "replacen") and x["args"] and strip_transparent(x["args"][0]).get("v") == "\t" for x in walk(cs)):
+                    src_ok = True
+                    break
+                lo = local_of(cs)
+                bnd = idx.binding.get(lo[1]) if lo else None
+                if not bnd:
+                    break
+                # a `mut` local re-assigned from itself (`line = line.trim_..`) keeps its first definition as origin
+                if bnd.get("init") is None:
+                    break
+                cur = bnd["init"]
+            r.ob("%s runs on the text whose tabs were converted" % n["method"], src_ok, C.mloc(tc, n),
+                 "receiver derives from replace('\\t', \" \")" if src_ok else "the trimmed value does not come from the tab-converted text: tabs beside a line break are kept (and later turned into spaces)")
     # used for JSX text and string attribute values
     users = sorted({b["name"] for b in ctx.facts.hir if b["crate"] == VISITOR_CRATE and not b.get("mac") and any(x.get("k") == "Call" and x.get("callee") == tc["path"] for x in walk(b["body"]))})
     r.ob("the cleaner is applied to JSX text and to string attribute values", len(users) >= 2, "-", "called from %s" % users)
